@@ -36,6 +36,7 @@ type checkSpec struct {
 }
 
 var checks = map[string]checkSpec{
+	"C01": {modDir: repoDir, pkg: "./internal/upload", test: "TestVerifC01", quickS: 150, thoroS: 1200, gomaxp: "2", floor: 5000, minClass: 6},
 	"C05": {modDir: repoDir, pkg: "./internal/counter", test: "TestVerifC05", quickS: 150, thoroS: 1200, gomaxp: "2", floor: 1000, minClass: 6},
 	"C10": {modDir: repoDir, pkg: "./internal/counter", test: "TestVerifC10", quickS: 150, thoroS: 1200, gomaxp: "2", floor: 100000, minClass: 6},
 	"C06": {modDir: repoDir, pkg: "./internal/counter", test: "TestVerifC06", quickS: 120, thoroS: 900, gomaxp: "2", floor: 10000, minClass: 4},
@@ -284,7 +285,13 @@ func main() {
 		m.Samples = m.Samples[:8]
 	}
 	for _, k := range scnOrder {
-		m.Scenarios = append(m.Scenarios, *scn[k])
+		st := scn[k]
+		for c := range m.Classes {
+			if strings.HasPrefix(c, st.Name+"/") {
+				st.Outcomes++
+			}
+		}
+		m.Scenarios = append(m.Scenarios, *st)
 	}
 
 	// Known findings.
@@ -354,6 +361,7 @@ func main() {
 		"notes":                         m.Notes,
 		"known_findings_reported":       knownLines,
 		"workers":                       n,
+		"states_note":                   "states = sum over worker processes of the distinct state hashes each worker saw (an upper bound of the union); distinct_outcomes per scenario are exact (over all bounds)",
 		"vacuity":                       vac,
 	}
 	if len(m.Samples) == 0 {
